@@ -929,6 +929,11 @@ class _ExtendedSymplectic(_Integrator):
         """
         # Validate inputs and system compatibility
         self.validate_inputs(system, y0, t_vals)
+
+        # Common zero-span short-circuit (a zero step makes omega infinite and the states NaN)
+        constant_sol = self._maybe_constant_solution(system, y0, t_vals)
+        if constant_sol is not None:
+            return constant_sol
         
         # Extract required data from the Hamiltonian system
         jac_H_typed = system.jac_H
